@@ -4,9 +4,14 @@ use serde_json::{json, Value};
 use typify_impl::{TypeDetails, TypeSpace};
 
 fn int_schema_text(s: &Value) -> String {
-    let mut t = String::from("{\"type\":\"integer\"");
     let empty = serde_json::Map::new();
     let o = s.as_object().unwrap_or(&empty);
+    // "nul": the nullable spelling {"type": ["integer", "null"]}
+    let mut t = if o.contains_key("nul") {
+        String::from("{\"type\":[\"integer\",\"null\"]")
+    } else {
+        String::from("{\"type\":\"integer\"")
+    };
     for (k, jk) in [
         ("min", "minimum"),
         ("max", "maximum"),
@@ -116,6 +121,15 @@ pub fn run(cases: &str, events: &str) {
                         Err(_) => ("err".to_string(), String::new()),
                         Ok(id) => {
                             let t = ts.get_type(&id).unwrap();
+                            // the nullable spelling yields Option<T>: the selection is T
+                            let inner = match t.details() {
+                                TypeDetails::Option(inner) => Some(inner),
+                                _ => None,
+                            };
+                            let t = match inner {
+                                Some(inner) => ts.get_type(&inner).unwrap(),
+                                None => t,
+                            };
                             let name = match t.details() {
                                 TypeDetails::Builtin(n) => n.to_string(),
                                 TypeDetails::String => "String".to_string(),
